@@ -1514,7 +1514,12 @@ class SuccessionDiagram:
         assert self.dag.edges[parent_id, node_id] is not None
         parent_depth = cast(int, self.dag.nodes[parent_id]["depth"])
         current_depth = cast(int, self.dag.nodes[node_id]["depth"])
-        self.dag.nodes[node_id]["depth"] = max(current_depth, parent_depth + 1)
+        new_depth = max(current_depth, parent_depth + 1)
+        self.dag.nodes[node_id]["depth"] = new_depth
+        if new_depth > current_depth:
+            # A longer path to this node is also a longer path to everything below it.
+            for child_id in list(self.dag.successors(node_id)):
+                self._update_node_depth(child_id, node_id)
 
     def _expand_one_node(self, node_id: int):
         """
